@@ -5,7 +5,7 @@ NEG = {"Lt": "Ge", "Ge": "Lt", "Gt": "Le", "Le": "Gt", "Eq": "Ne", "Ne": "Eq"}
 SWAP = {"Lt": "Gt", "Gt": "Lt", "Le": "Ge", "Ge": "Le", "Eq": "Eq", "Ne": "Ne"}
 
 
-def cond_atom(body, l, depth=0):
+def cond_atom(body, l, depth=0, at=None):
     """Normalise the definition of condition local `l` into
     (neg, atom) where atom is one of
       ('cmp', op, operandA, operandB)      -- MIR BinaryOp comparison
@@ -20,6 +20,12 @@ def cond_atom(body, l, depth=0):
         seen += 1
         ds = body.defs().get(l, [])
         full = [d for d in ds if d[2] in ("assign", "call")]
+        if len(full) > 1 and at is not None:
+            # flow-sensitive: only the assignments that reach the block where the local is read
+            rd = body.reaching_defs(l, at)
+            full = [d for d in rd if d[2] in ("assign", "call")]
+            if full and full[0][0] == at and full[0][1] is None:
+                full = [d for d in ds if d[2] in ("assign", "call")]    # defined by this block's own terminator: be conservative
         if l in body.borrowed():
             # the local can change through a pointer (e.g. a flag captured by a closure): keep it symbolic
             return neg, ("multi", l)
@@ -27,6 +33,8 @@ def cond_atom(body, l, depth=0):
             # multiple assignments (e.g. && / || lowering or flag): not a simple atom
             return neg, ("multi", l)
         bi, si, kind, payload = full[0]
+        if at is not None:
+            at = bi
         if kind == "call":
             return neg, ("call", callee_of(payload), payload)
         rv = payload
@@ -117,7 +125,7 @@ def bool_switches(body):
             continue
         if body.locals[l] != "bool":
             continue
-        neg, atom = cond_atom(body, l)
+        neg, atom = cond_atom(body, l, at=bi)
         f, t = be
         if neg:
             f, t = t, f
